@@ -151,7 +151,7 @@ def gen_scenario(rng):
                     cols = [x for x in objects[o]['fmt'].split(";")[0].split(",")]
                     keep = rng.sample(cols, rng.randint(1, len(cols)))
                     cur_fmt[o] = ",".join(keep) + rng.choice([";*", ";2:1", ";*"])
-                    if rng.random() < 0.3:
+                    if rng.random() < 0.45:
                         # (only the limits are given again: the columns stay what they are at that moment)
                         cur_fmt[o] = rng.choice([";1:1", ";*", ";2:0"])
                     else:
